@@ -113,3 +113,12 @@ package heur
 //@   ensures [band] -3072 <= result && result <= 3072
 //@   modifies nothing
 //@   nopanic
+//@
+//@ # ---- `search` views
+//@ func (*MoveRanker).FailHigh view search
+//@   trusted frame only: updates the history tables
+//@   modifies mr.history.*, mr.captHist.*, mr.continuations[0].*, mr.continuations[1].*
+//@
+//@ func (*MoveRanker).RankNoisy view search
+//@   trusted read-only
+//@   modifies nothing
